@@ -295,7 +295,7 @@ def scenario_buffer(sim: Sim) -> None:
     from frequenz.sdk.timeseries._ringbuffer.serialization import dump, load
 
     ch = sim.ch
-    cap = ch.int_between("capacity", 1, 12)
+    cap = ch.int_between("capacity", 1, sim.scale(12, 24))
     period_us = ch.choice("period", [1_000_000, 500_000, 1_000, 7_000_000])
     align = datetime(2024, 1, 1, tzinfo=sim.epoch.tzinfo) + timedelta(microseconds=ch.choice(
         "align_off", [0, 0, 250_000, 333_333, 999_999, 1]) % period_us)
@@ -306,7 +306,7 @@ def scenario_buffer(sim: Sim) -> None:
     sig = {"container": "numpy" if container == 0 else "list"}
     sim.config.update(cap=cap, period_us=period_us, container=sig["container"], align_off=str(align))
     sim.note(f"buffer cap={cap} period={period_us}us container={sig['container']} align={align}")
-    hist = _gen_history(sim, m, ch.int_between("nupdates", 10, 60))
+    hist = _gen_history(sim, m, ch.int_between("nupdates", 10, sim.scale(60, 150)))
     for ts, v, kind in hist:
         s = m.slot(ts)
         if kind not in ("ok",) or ts != m.ts(s):
